@@ -26,6 +26,7 @@ func runC19(c *core.Ctx) {
 	c.Clause("C19.3 configuration bookkeeping")
 	h.adoptAndRevert("C19.3a adopt-revert")
 	h.commitConfigTied("C19.3b commit-config")
+	h.servePrologue("C19.4 serve-prologue")
 }
 
 func runC20(c *core.Ctx) {
